@@ -34,23 +34,23 @@ P = {
  "C11": ("exploration", "3.C11", "differential testing against an independent RPSL evaluator over generated IRR databases (in-process, bgpfu binary, agent binary)",
   "Generated databases (nested/cyclic sets, v4-only/v6-only/no routes, duplicates) x generated expressions; output ranges compared pointwise with the reference on boundary probes; the agent's installed filters likewise.", "fake IRRd fidelity; parenthesised expressions; dependency limits (NOT on long prefixes, cross-family ^n-m) excluded."),
  "C12": ("exploration", "3.C12", "generated server hellos in both arrival orders + framing check over real transports",
-  "4k (quick) / 200k hellos (version subsets, session-ids from a fixed list of forms and generated around the 32- and 64-bit boundaries, namespaces, orders) through the real establishment under the scheduler; reported context compared with the hello; a conforming chunked-framing server over TLS/SSH/child process checks usability after negotiation; a hello whose delimiter never comes before the stream ends must not establish a session.", "xs:unsignedInt lexical space for session-id."),
+  "4k (quick) / 200k hellos (version subsets, session-ids from a fixed list of forms and generated around the 32- and 64-bit boundaries, namespaces - prefixed, default, both bindings mixed in one hello, a foreign-namespace element named capability -, unusual :url parameter lists, mixed-case and look-alike capability URIs, orders) through the real establishment under the scheduler; reported context compared with the hello; a conforming chunked-framing server over TLS/SSH/child process checks usability after negotiation; a hello whose delimiter never comes before the stream ends must not establish a session.", "xs:unsignedInt lexical space for session-id."),
  "C13": ("exploration", "3.C13", "metamorphic testing: every single XML-equivalent rewrite at every site + random compositions with delta-debugged signatures; rewrites guarded by an independent infoset comparison",
-  "22 accepted base messages (hello, 4 reply types, candidate and installed configurations) x every applicable rewrite x every site, plus 5k (quick) / 1M random compositions.", "rewrites are information-preserving for these grammars; free-text leaves untouched."),
+  "22 accepted base messages (hello, 4 reply types, candidate and installed configurations) x every applicable rewrite (prefix vs default namespace, prefix declared on the element itself, redundant and unused declarations, inter-element white space, white space around tokens, comments between elements / as only content / after a leaf's text, attribute order and quoting, five spellings of the XML declaration, <x/> vs <x></x>) x every site, plus 5k (quick) / 1M random compositions; the comment-inside-text and unused-declaration rewrites fail on the current tree at 75 (kind, leaf, outcome) sites = known findings D22 / D23 and are exercised singly only.", "rewrites are information-preserving for these grammars (each variant's infoset is compared with the base's by the harness' own parser); the characters of free-text leaves are never touched."),
  "C14": ("exploration", "3.C14", "mutation fuzzing of server messages with panic / hang / collateral-failure monitors (release, dev, Miri, ASan builds)",
-  "100k (quick) / 10M mutated messages (18 operators, among them runs of multi-byte characters across size boundaries and two replies with different ids in one frame); replies are fed while two other requests are outstanding whose own replies follow; no panic, bounded time (watchdog with witness), at most the affected call fails; when the damaged reply's start tag (message-id) is untouched no other request may fail and its owner must resolve.", "mutation operators of harness/src/parse.rs."),
+  "100k (quick) / 10M mutated messages (19 operator kinds, among them runs of multi-byte characters across size boundaries, two replies with different ids in one frame, and URI parameter lists rewritten from a grammar); replies are fed while two other requests are outstanding whose own replies follow; no panic, bounded time (watchdog with witness), at most the affected call fails; when the damaged reply's start tag (message-id) is untouched no other request may fail and its owner must resolve.", "mutation operators of harness/src/parse.rs."),
  "C15": ("fault_enumeration", "3.C15", "real agent binary with k good + m unevaluable policies, per-policy outcome monitor",
   "Every unevaluable kind alone (once already installed, once not yet installed) and combined, every other case sharing a filter-set between good and unevaluable policies, (unknown as-set, IRR error, PeerAS, AS-path regex, attribute match) among 1-4 good policies in varying hash orders; good ones must be installed, committed and equal the oracle; unevaluable ones untouched.", "fake Junos/IRRd."),
  "C16": ("exploration", "3.C16", "generated running configurations against the generator's own selection",
-  "20k (quick) / 2M configurations mixing managed, inactive, unannotated, unparseable, marker-not-at-start-of-comment and other-content statements, attribute orders, duplicate xmlns:jcmd, escaped names, attribute values re-spelled with character references.", "parseability of an annotation = rpsl grammar."),
+  "20k (quick) / 2M configurations mixing managed, inactive, unannotated, unparseable, marker-not-at-start-of-comment and other-content statements, attribute orders, duplicate xmlns:jcmd, escaped names, names differing only in case, attribute values re-spelled with character references.", "parseability of an annotation = rpsl grammar."),
  "C17": ("fault_enumeration", "3.C17", "shared-connection vs fresh-connection differential with query-keyed IRR error injection",
-  "150 (quick) / 20k sequences of 2-12 expressions on one evaluator with D/E/F injected on arbitrary queries, permanent and transient, against servers that answer D or C for an empty set, with short and long multi-byte error texts, plus saturation sequences (the same failing or panicking expression 1..257 times, then a good one sharing a filter-set); each result equals the fresh-connection result.", "faults keyed by query text."),
+  "150 (quick) / 20k sequences of 2-12 expressions on one evaluator with D/E/F injected on arbitrary queries, permanent and transient, against servers that answer D or C for an empty set, with short realistic and long multi-byte error texts, plus saturation sequences (the same failing or panicking expression 1..257 times, then a good one sharing a filter-set); each result equals the fresh-connection result.", "faults keyed by query text."),
  "C18": ("exploration", "3.C18", "controlled scheduler with drop actions at every suspension point + real-transport partial-message drops; Miri and ThreadSanitizer as secondary oracles",
   "As C05 plus drop(task) actions (never polled, waiting for a lock, reader waiting for the transport, reader holding an unparked reply) exhaustively for n<=2/3 (also with 70 kB replies) and randomly (reply sizes 150 B - 300 kB); long-lived sessions (0..4096, thorough ..70k completed requests, then bursts of 2..400 of which all but one are abandoned, their replies arriving before or after the next request); TLS/SSH/child-process cases drop the reader after a partial message (thorough: also in a ThreadSanitizer build).", "as C05."),
  "C19": ("exploration", "3.C19", "real daemon under an LD_PRELOAD clock-dilation shim; virtual-time monitor of connection timestamps, logged delays, signals",
-  "Scripted outcome sequences for periods 300, 90, 60 (slow successful run), 600 and 0 with SIGHUP/SIGTERM/SIGINT during the normal wait and during back-off waits, and a single-worker-thread daemon whose failed run leaves an evaluation task behind on an unresponsive IRRd (quick) plus 30/60/100/120/150/1000/3600 (thorough); back-off start, growth, cap, period restoration, SIGHUP/SIGTERM/SIGINT, one-shot.", "virtual time = real x K; jitter > 20 ms makes a run inconclusive."),
+  "Scripted outcome sequences for periods 300, 90, 60 (slow successful run), 600 and 0 with SIGHUP/SIGTERM/SIGINT during the normal wait and during back-off waits, and a single-worker-thread daemon whose failed run leaves an evaluation task behind on an unresponsive IRRd, and a target that truncates a reply and closes n times before behaving (quick) plus 30/60/100/120/150/1000/3600 (thorough); back-off start, growth, cap, period restoration, SIGHUP/SIGTERM/SIGINT, one-shot.", "virtual time = real x K; jitter > max(20 ms, 2000 ms / K) makes a run inconclusive."),
  "C20": ("exploration", "3.C20", "complete TRACE capture of the library transports and of the agent binary, multi-encoding secret search",
-  "SSH passwords and the secret parts of TLS client keys (PKCS#8/SEC1/PKCS#1; ECDSA P-256, RSA-2048, and types the TLS backend refuses or rarely sees: P-521, secp256k1, RSA-1024, Ed448, Ed25519, damaged DER) searched in clear, escaped, hex (6 styles), base64 (3 alignments x 2 alphabets) and byte lists, over successful and failing attempts (passwords with trailing line endings, key files on one line / without end marker / with CRLF and leading text), all verbosities and RUST_LOG directives, stderr and log file.", "encodings enumerated in harness/src/secrets.rs; public parts of a key (also in certificates) are not secrets."),
+  "SSH passwords and the secret parts of TLS client keys (PKCS#8/SEC1/PKCS#1; ECDSA P-256, RSA-2048, and types the TLS backend refuses or rarely sees: P-521, secp256k1, RSA-1024, Ed448, Ed25519, damaged DER) searched in clear, escaped, hex (6 styles), base64 (3 alignments x 2 alphabets) and byte lists, over successful and failing attempts (passwords with trailing line endings, key files on one line / without end marker / with CRLF and leading text), all verbosities and RUST_LOG directives, stderr and log file; each attempt's log is also searched for the keys of earlier attempts in the same process, and the agent is run as a daemon that connects twice.", "encodings enumerated in harness/src/secrets.rs; public parts of a key (also in certificates) are not secrets."),
 }
 checks = []
 for pid in sorted(P):
